@@ -292,3 +292,4 @@ fire("C08", "code_data/_constants.py", "    if isinstance(value, (str, type(None
 silent(["C08", "C02", "C03"], "code_data/_constants.py", "    if isinstance(value, (bool, int, bytes)):\n        return (type(value), value)\n", "    if isinstance(value, (bool, int)):\n        return (type(value), value)\n    if isinstance(value, bytes):\n        return (bytes, value)\n", "bytes tagged in an arm of their own")
 fire("C07", J, "    if \"int\" in value:\n        return int(value[\"int\"])\n    if \"target\" in value:", "    if \"target\" in value:", "the original defect: a big operand written as {int} is not read back (R07.2)")
 fire("C07", J, "        return NoArg(**{**value, \"_arg\": cast(int, arg_from_json(value[\"_arg\"]))})", "        return NoArg(**value)", "same for NoArg._arg (R07.2)")
+fire("C11", L, "            if (bytecode_offset - last_bytecode_offset) > current_item.bytecode_offset:\n", "            if False and (bytecode_offset - last_bytecode_offset) > current_item.bytecode_offset:\n", "the original defect: an odd lnotab increment hangs the walk (R11.H)")
